@@ -79,6 +79,11 @@ var witnessCases = [][]string{
 	{"to_radix/1", "n:0", "n:1"},
 	{"to_radix/1", "n:5", "f:1p-1"},
 	{"to_radix/1", "n:5", "null"},
+	{"tovalue/1", "bin:fffe00/24/8", "O(bits_format=s:736e6970706574;sizebase=n:-1)"},
+	{"tovalue/1", "bin:fffe00/24/8", "O(bits_format=s:736e6970706574;sizebase=n:37)"},
+	{"tovalue/1", "dv:png=O()", "O(addrbase=n:0;bits_format=s:736e6970706574;sizebase=n:0)"},
+	{"tojson/1", "dv:png_sig=s:efbfbd504e470d0a1a0a", "O(bits_format=s:736e6970706574;sizebase=n:1)"},
+	{"_tovalue/1", "bin:fffe00/24/8", "O(bits_format=s:736e6970706574;sizebase=n:9223372036854775807)"},
 	{"_stdio_read/2", "null", "s:737464696e", "n:0"},
 	{"_stdio_read/2", "null", "s:737464696e", "n:16"},
 	{"_stdio_read/2", "null", "s:737464696e", "n:-1"},
@@ -95,6 +100,45 @@ var witnessCases = [][]string{
 	{"@slice/2", "bin:fffe00/24/8", "n:-9223372036854775808", "b:18446744073709551616"},
 	{"@slice/2", "bin:a8/5/1", "n:4", "n:2"},
 }
+
+// ---- option objects that combine two members -------------------------------------------------
+//
+// every bits_format x every numeric display option x boundary values: the pool's option objects
+// each probe one concern; a fault that needs two cooperating members (the bits format renderer
+// using an option that another statement clamps) needs the product.
+
+var bitsFormats = []string{"string", "md5", "hex", "base64", "truncate", "snippet", "byte_array"}
+var optMembers = []string{"addrbase", "array_truncate", "depth", "display_bytes", "line_bytes", "sizebase", "string_truncate"}
+var optMemberValues = []string{"n:-1", "n:0", "n:1", "n:16", "n:37", "n:9223372036854775807", "n:-9223372036854775808", "b:9223372036854775808", "f:nan"}
+
+func comboOptionTokens() []string {
+	var ts []string
+	for _, bf := range bitsFormats {
+		for _, m := range optMembers {
+			for _, v := range optMemberValues {
+				// keys sorted: every member except "addrbase", "array_truncate" sorts after "bits_format"
+				kv := []string{"bits_format=s:" + hexOrDash([]byte(bf)), m + "=" + v}
+				if m < "bits_format" {
+					kv[0], kv[1] = kv[1], kv[0]
+				}
+				ts = append(ts, "O("+strings.Join(kv, ";")+")")
+			}
+		}
+	}
+	return ts
+}
+
+// functions that take display / format options as their only argument
+var optionFns = map[string]bool{
+	"tovalue/1": true, "toactual/1": true, "tosym/1": true, "display/1": true, "display_implicit/1": true,
+	"d/1": true, "da/1": true, "dd/1": true, "dv/1": true, "ddv/1": true, "hexdump/1": true, "hd/1": true,
+	"tojson/1": true, "to_jq/1": true, "to_toml/1": true, "to_yaml/1": true, "to_csv/1": true, "to_xml/1": true,
+	"_tovalue/1": true, "_display/1": true, "_hexdump/1": true, "_print_color_json/1": true, "_to_json/1": true,
+	"options/1": true,
+}
+
+// inputs that reach the bits format renderer / the dump code
+var optionInputs = []string{"bin:fffe00/24/8", "bin:a8/5/1", "dv:png_sig=s:efbfbd504e470d0a1a0a", "dv:png=O()"}
 
 // generate: quick = a seeded sample per function, thorough = exhaustive for arity <= 2
 // (arity >= 3 pairwise covering), over all pool values in every position.
@@ -124,12 +168,29 @@ func generate(fns []fnInfo, p poolT, cfg hlib.Config, rnd *hlib.Rand) []pcase {
 		}
 	}
 	only := os.Getenv("VERIF_C13_ONLY") // developer option: restrict the generated cases to one function key
+	combos := comboOptionTokens()
 	for fi, f := range fns {
 		if _, skip := skipFns[f.key()]; skip {
 			continue
 		}
 		if only != "" && f.key() != only {
 			continue
+		}
+		if optionFns[f.key()] {
+			// thorough: every combined option object on every renderer-reaching input;
+			// quick: a seeded tenth of them
+			for _, in := range optionInputs {
+				if _, ok := p.byTok(in); !ok {
+					cases = append(cases, pcase{fn: -1, toks: []string{f.key(), in, "pool-value-missing"}})
+					continue
+				}
+				for _, ot := range combos {
+					if !cfg.Thorough() && rnd.Intn(10) != 0 {
+						continue
+					}
+					cases = append(cases, pcase{fn: fi, toks: []string{in, ot}})
+				}
+			}
 		}
 		k := f.arity + 1
 		if f.src == "syntax" {
